@@ -1451,6 +1451,14 @@ class HplFunctionCall(HplExpression):
 
     def __attrs_post_init__(self):
         object.__setattr__(self, 'data_type', self.function.result)
+        # narrow the type of each argument to what the matching overloads accept
+        types = tuple(arg.data_type for arg in self.arguments)
+        overloads = [sig for sig in self.function.overloads if sig.accepts(types)]
+        args = []
+        for i, arg in enumerate(self.arguments):
+            params = (sig.parameters[i] if i < sig.arity else sig.variadic for sig in overloads)
+            args.append(arg.cast(DataType.union(params)))
+        object.__setattr__(self, 'arguments', tuple(args))
 
     @property
     def is_function_call(self) -> bool:
